@@ -383,6 +383,24 @@ def run_ident(t, case, seed):
                         probs = [("gain", "result depends on the per-setup gains: " + ", ".join(f"d{k}={e[k]:.3g}" for k in bad))]
                     t.outcomes[f"{route}:gain-invariance-compared"] += 1
             judge(t, case, seed, route, gname, probs, errs)
+            if not probs:
+                # second identification of the SAME record objects (no copies in between): still exact, i.e. the first one did
+                # not alter the records it was given (func: the list of ref/mov dicts; class: the data bound to the setup)
+                try:
+                    m2 = []
+                    if route == "func":
+                        Obs, A, C = ssi.SSI_multi_setup(Ys, fs, int(br), int(o), meth)
+                        Fn2, Xi2, Ph2, Lam2, *_ = ssi.SSI_poles(Obs, A, C, int(o), 1.0 / fs)
+                    else:
+                        ms.run_by_name("a")
+                        R2 = alg.result
+                        Fn2, Xi2, Ph2, Lam2 = R2.Fn_poles, R2.Xi_poles, R2.Phi_poles, R2.Lambds
+                    t.evaluations += 1
+                    res2 = _tables(S, Lam2, Fn2, Xi2, Ph2, L, m2)
+                except Exception as e:
+                    res2 = ([("raises", f"{type(e).__name__}: {str(e)[:160]}")], {})
+                if res2 is not None:
+                    judge(t, case, seed, route + "-repeat", gname, *res2)
             if not probs and not t.samples and route == "func":
                 t.sample({"case": _short(case), "gains": gains, "br": br, "global_rows": L,
                           "channel_to_global_row": [su["rows"] for su in setups], "ref_ind": ref_ind,
@@ -477,7 +495,7 @@ def explore(ctx):
     ctx.pmap(_work, _items(sp, 300))
     ctx.pmap(_work, _items(idc, 12))
     ctx.require("split:agree:pre_multisetup", "split:agree:MultiSetup_PreGER.data", "split:n=6", "split:datasets=3",
-                "func:agree", "class:agree", "mpe:agree", "func:gain-invariance-compared", "class:gain-invariance-compared",
+                "func:agree", "class:agree", "func-repeat:agree", "class-repeat:agree", "mpe:agree", "func:gain-invariance-compared", "class:gain-invariance-compared",
                 "shapes:complex", "shapes:real", "method:cov_mm", "method:dat", "refs:elsewhere", "refs:first-positions",
                 "gain:non-unit")
 
